@@ -293,6 +293,68 @@ RefStep(kind, p, s, in) ==
              NoDen, "ratio", FALSE, RZero, RI(vm))
 
 ---------------------------------------------------------------------------
+(* C15: every composite a second time, as the composition of the reference semantics of its PUBLIC *)
+(* parts (SMA, SD, MAD, EMA, TR, MIN, MAX, FAST_STOCH, ATR), each fed exactly what the documentation *)
+(* says it is fed.  PartsStep returns [s |-> parts' states, v |-> <<Rat>>] in the composite's field   *)
+(* order; the models check that it agrees with RefStep (invariant PartsAgree in TaSystem).            *)
+Composites == {"BB", "SLOW_STOCH", "ATR", "MACD", "PPO", "KC", "CE", "CCI"}
+Sc(x) == [ty |-> "s", x |-> x]
+PartsInit(kind, p) ==
+    CASE kind = "BB"  -> [sma |-> RefInit("SMA", p), sd |-> RefInit("SD", p)]
+      [] kind = "SLOW_STOCH" -> [fs |-> RefInit("FAST_STOCH", p), e |-> EmaInit]
+      [] kind = "ATR" -> [tr |-> RefInit("TR", p), e |-> EmaInit]
+      [] kind \in {"MACD", "PPO"} -> [f |-> EmaInit, s |-> EmaInit, g |-> EmaInit]
+      [] kind = "KC"  -> [e |-> EmaInit, tr |-> RefInit("TR", p), a |-> EmaInit]
+      [] kind = "CE"  -> [mx |-> RefInit("MAX", p), mn |-> RefInit("MIN", p), tr |-> RefInit("TR", p), a |-> EmaInit]
+      [] kind = "CCI" -> [sma |-> RefInit("SMA", p), mad |-> RefInit("MAD", p)]
+      [] OTHER -> [none |-> 0]
+PartsStep(kind, p, s, in) ==
+    CASE kind = "BB" ->
+            LET a == RefStep("SMA", p, s.sma, in)  d == RefStep("SD", p, s.sd, in)
+                hv == RMul(RMul(p.m, RAbs(p.m)), d.f[1].r)
+            IN [s |-> [sma |-> a.s, sd |-> d.s], v |-> <<a.f[1].r, hv, hv>>]
+      [] kind = "SLOW_STOCH" ->
+            LET f == RefStep("FAST_STOCH", p, s.fs, in)
+                e == EmaStep(s.e, p.n2, f.f[1].r)
+            IN [s |-> [fs |-> f.s, e |-> e], v |-> <<e.v>>]
+      [] kind = "ATR" ->
+            LET t == RefStep("TR", p, s.tr, in)
+                e == EmaStep(s.e, p.n, t.f[1].r)
+            IN [s |-> [tr |-> t.s, e |-> e], v |-> <<e.v>>]
+      [] kind = "MACD" ->
+            LET x == RI(Cl(in))
+                f == EmaStep(s.f, p.n, x)  sl == EmaStep(s.s, p.n2, x)
+                line == RSub(f.v, sl.v)
+                g == EmaStep(s.g, p.n3, line)
+            IN [s |-> [f |-> f, s |-> sl, g |-> g], v |-> <<line, g.v, RSub(line, g.v)>>]
+      [] kind = "PPO" ->
+            LET x == RI(Cl(in))
+                f == EmaStep(s.f, p.n, x)  sl == EmaStep(s.s, p.n2, x)
+                line == RMul(RDiv(RSub(f.v, sl.v), sl.v), RI(100))
+                g == EmaStep(s.g, p.n3, line)
+            IN [s |-> [f |-> f, s |-> sl, g |-> g], v |-> <<line, g.v, RSub(line, g.v)>>]
+      [] kind = "KC" ->
+            LET e == EmaStep(s.e, p.n, Norm(Tp3(in), 3))
+                t == RefStep("TR", p, s.tr, in)
+                a == EmaStep(s.a, p.n, t.f[1].r)
+                w == RMul(p.m, a.v)
+            IN [s |-> [e |-> e, tr |-> t.s, a |-> a], v |-> <<e.v, RAdd(e.v, w), RSub(e.v, w)>>]
+      [] kind = "CE" ->
+            LET mx == RefStep("MAX", p, s.mx, Sc(in.h))  mn == RefStep("MIN", p, s.mn, Sc(in.l))
+                t == RefStep("TR", p, s.tr, in)
+                a == EmaStep(s.a, p.n, t.f[1].r)
+                w == RMul(p.m, a.v)
+            IN [s |-> [mx |-> mx.s, mn |-> mn.s, tr |-> t.s, a |-> a], v |-> <<RSub(mx.f[1].r, w), RAdd(mn.f[1].r, w)>>]
+      [] kind = "CCI" ->
+            \* SMA and MAD of the typical price; fed 3 x tp (an integer), which cancels in the ratio
+            LET tp3 == Tp3(in)
+                a == RefStep("SMA", p, s.sma, Sc(tp3))  d == RefStep("MAD", p, s.mad, Sc(tp3))
+                mad == d.f[1].r
+            IN [s |-> [sma |-> a.s, mad |-> d.s],
+                v |-> <<IF mad = RZero THEN RZero ELSE RDiv(RSub(RI(tp3), a.f[1].r), RMul(<<3, 200>>, mad))>>]
+      [] OTHER -> [s |-> s, v |-> <<>>]
+
+---------------------------------------------------------------------------
 (* Does a state (nested records / sequences of rationals) contain OVF?  The *)
 (* models use it as a state constraint.  Only the EMA-type components can.  *)
 EmaBad(e) == ~IsVal(e.v)
